@@ -124,6 +124,15 @@ def oracle_c03(chk, rec):
         chk.fail("more generations than iters (or evaluations outside generations)", {**d, "generations": gens, "fitness_calls": len(rec.batch_sizes)}, feats(rec, "budget"))
     if rec.final["remains"] != iters * pop - sum(rec.batch_sizes):
         chk.fail("get_remains_calls() differs from iters*pop_size minus the evaluations made", {**d, "remains": rec.final["remains"], "evaluated": sum(rec.batch_sizes)}, feats(rec, "remains"))
+    # the best-so-far OBJECTIVE is taken from what the fitness function returned (one call per generation), not from the
+    # optimizer's own record: an evaluated individual that the record never saw still counts
+    if len(rec.calls) == gens and all(len(v) and not any(x != x for x in v) for _, v in rec.calls):
+        run_best, snaps = -float("inf"), []
+        for s, (_, vals) in zip(rec.snaps, rec.calls):
+            run_best = max(run_best, max(sign * x for x in vals))
+            snaps.append({**s, "best_fit": run_best})
+    else:
+        snaps = rec.snaps
     # the stopping rule, from the user-level parameters
     def met(s):
         ok = s["best_fit"] == float("inf")    # without optimal_value the target is +inf: only an infinite fitness reaches it
@@ -136,14 +145,14 @@ def oracle_c03(chk, rec):
         return ok
     # stagnation counter from the observed best-so-far series
     stagn, cnt, prevb = [], 0, None
-    for s in rec.snaps:
+    for s in snaps:
         if prevb is None or s["best_fit"] > prevb:
             cnt = 0
         else:
             cnt += 1
         prevb = s["best_fit"]
         stagn.append(cnt)
-    for k, s in enumerate(rec.snaps):
+    for k, s in enumerate(snaps):
         rule = met(s) or (cfg.get("no_increase_num") is not None and stagn[k] == cfg["no_increase_num"])
         if k < gens - 1 and rule:
             chk.fail("the run went on after a generation that met the stopping rule", {**d, "generation": k}, feats(rec, "late_stop"))
@@ -303,14 +312,25 @@ def main(prop: str, tier: str, classes=None) -> int:
                            (GeneticAlgorithm, dict(iters=5, pop_size=9, str_len=12), W.onemax_delayed),
                            (SHAGA, dict(iters=4, pop_size=7, str_len=10), W.onemax_delayed)):
             for nj, mn in ((2, False), (3, True)):
-                o = cls(fitness_function=f, minimization=mn, n_jobs=nj, keep_history=True, random_state=chk.seed + 31, **kw)
+                # with a genotype-to-phenotype mapping on the worker path (row-wise, not the identity) in half of the runs
+                g2p = W.g2p_scale if (nj == 3) == (cls in (DifferentialEvolution, GeneticAlgorithm)) else None
+                o = cls(fitness_function=f, minimization=mn, n_jobs=nj, keep_history=True, random_state=chk.seed + 31,
+                        **({"genotype_to_phenotype": g2p} if g2p is not None else {}), **kw)
                 o.fit()
                 st = o.get_stats()
                 sign = -1.0 if mn else 1.0
                 chk.count("parallel_" + cls.__name__)
                 chk.case(("parallel", cls.__name__, nj, mn))
-                dd = {"optimizer": cls.__name__, "n_jobs": nj, "minimization": mn}
+                dd = {"optimizer": cls.__name__, "n_jobs": nj, "minimization": mn, "genotype_to_phenotype": g2p.__name__ if g2p is not None else None}
                 best = -np.inf
+                if g2p is not None:
+                    ftm = o.get_fittest()
+                    bad_gen = next((k for k in range(len(st["population_g"]))
+                                    if not np.array_equal(np.asarray(st["population_ph"][k], dtype=np.float64), g2p(np.asarray(st["population_g"][k])))), None)
+                    if bad_gen is not None or not np.array_equal(np.asarray(ftm["phenotype"], dtype=np.float64), g2p(np.asarray([ftm["genotype"]]))[0]):
+                        chk.fail("the reported phenotype is not the genotype-to-phenotype image of the reported genotype",
+                                 {**dd, "generation": bad_gen, "scenario": "n_jobs > 1: the phenotype stored in a slot must be the image of the genotype stored in that slot"},
+                                 {"optimizer": cls.__name__, "clause": "phenotype_image_parallel"})
                 for k in range(len(st["fitness"])):
                     exp = sign * f(np.asarray(st["population_ph"][k]))
                     if not np.array_equal(np.asarray(st["fitness"][k], dtype=np.float64), exp):
